@@ -282,10 +282,39 @@ SITE_HDR = ('from Reduino.Actuators import Led, RGBLed, Servo, Buzzer\nfrom Redu
             'def helper(v):\n    return v + 1\nif p > 1:\n    hoisted = 1\nelse:\n    hoisted = 2\n')
 
 
+WHOLE_SCRIPTS = {
+    "chain_3000_literals": "x = " + "1 + " * 3000 + "1\n",
+    "chain_1500_names": "a = 1\nx = " + "a + " * 1500 + "a\n",
+    "chain_40_mixed": "a = 1\nx = " + " + ".join(["a * 2", "3"] * 20) + "\nsleep(x)\n",
+    "parens_300": "x = " + "(" * 300 + "1" + ")" * 300 + "\n",
+    "helper_recursing_on_growing_list": "def f(x):\n    return f([x])\ny = f(1)\n",
+    "helper_self_recursion": "def g(n):\n    if n <= 0:\n        return 0\n    return g(n - 1) + 1\nsleep(g(3))\n",
+    "repeated_squaring_26": "v = 3\n" + "v = v * v\n" * 26,
+    "repeated_doubling_shift": "v = 1\n" + "v = v << v\n" * 6,
+    "repeated_pow": "v = 2\n" + "v = v ** v\n" * 5,
+    "nested_ifs_60": "".join(" " * (4 * i) + "if p > 0:\n" for i in range(60)) + " " * 240 + "sleep(1)\n",
+    "nested_loops_30": "".join(" " * (4 * i) + f"for i{i} in range(2):\n" for i in range(30)) + " " * 120 + "sleep(1)\n",
+    "long_line_200k": "x = '" + "a" * 200000 + "'\n",
+    "many_lines_5000": "sleep(1)\n" * 5000,
+    "string_mul": "x = 'ab' * 1000000000\n",
+    "list_mul": "xs = [1] * 1000000000\n",
+    "unbalanced": "x = (1 +\nsleep(1)\n",
+    "only_backslash": "x = 1 + \\\n",
+    "nul_byte": "x = 1\x00\n",
+    "tabs_and_spaces": "if p > 0:\n\tsleep(1)\n        sleep(2)\n",
+}
+
+
 def site_obligation(item):
     _, oid, pos, tpl = item
     res = Result(oid, "holds", nontrivial=False)
-    cases = [SITE_HDR + tpl.format(e=e) + "\n" for e in HOSTILE]
+    if pos == "whole_script":
+        names = list(WHOLE_SCRIPTS)
+        cases = [SITE_HDR + WHOLE_SCRIPTS[k] for k in names]
+        labels = names
+    else:
+        cases = [SITE_HDR + tpl.format(e=e) + "\n" for e in HOSTILE]
+        labels = HOSTILE
     for canary in ("/tmp/reduino_canary",):
         if os.path.exists(canary):
             os.unlink(canary)
@@ -304,7 +333,7 @@ def site_obligation(item):
         return res
     res.queries = len(cases)
     res.sample = {"obligation": oid, "template": tpl, "expressions": len(HOSTILE)}
-    for e, (outcome, secs, events) in zip(HOSTILE, data["results"]):
+    for e, (outcome, secs, events) in zip(labels, data["results"]):
         problem = None
         if outcome.startswith("ESCAPES"):
             problem = f"{outcome[8:]} escapes parse()/emit()"
@@ -423,6 +452,7 @@ def run(tier, seed, only=None):
     t0 = time.time()
     items = [("eval", f"evaluator/{k}", k) for k in ROOT_KINDS]
     items += [("site", f"sites/{pos}", pos, tpl) for pos, tpl in POSITIONS.items()]
+    items.append(("site", "sites/whole_script", "whole_script", ""))
     items += [("regex", f"regex/{name}", pat, flags) for name, pat, flags in live_patterns()]
     items.append(("regex", "regex/self-test(must be found)", r"^x(?:a|aa)*y$", 0))
     if only:
